@@ -92,9 +92,10 @@ def monitor(k, ctx, where, model=None):
     sel_vec = []
     with simproc.quiet():
         for ci, c in enumerate(k.unique_choices):
-            ys = [s for s in c.syms if s.str_value == "y"]
+            members = list(dict.fromkeys(c.syms))  # a member re-declared at a second site of the choice is listed twice
+            ys = [s for s in members if s.str_value == "y"]
             vis = c.visibility
-            vm = [s for s in c.syms if s.visibility]
+            vm = [s for s in members if s.visibility]
             sel_vec.append(ys[0].name if len(ys) == 1 else (None if not ys else "+".join(s.name for s in ys)))
             if vis and vm:
                 if len(ys) != 1:
@@ -110,7 +111,7 @@ def monitor(k, ctx, where, model=None):
                            "user-pick-visible" if (c._user_selection is not None and c._user_selection.visibility) else
                            "default" if any(core.expr_value(cond) and s.visibility for s, cond in c.defaults) else "first-visible")
                     ctx.violate(f"C05/wrong-member/{why}", f"{where}: choice #{ci}: y member {ys[0].name}, rule gives {exp.name if exp else None}")
-                others = [s.name for s in c.syms if s is not ys[0] and s.str_value != "n"]
+                others = [s.name for s in members if s is not ys[0] and s.str_value != "n"]
                 if others:
                     ctx.violate("C05/other-member-not-n", f"{where}: choice #{ci}: {others} are not n")
                 if c.selection is not ys[0]:
